@@ -201,6 +201,8 @@ Lemma fx_connread_true : fx_connread (cf_fix cf) = true.
 Proof. rewrite Hfix. reflexivity. Qed.
 Lemma fx_qidearly_true : fx_qidearly (cf_fix cf) = true.
 Proof. rewrite Hfix. reflexivity. Qed.
+Lemma fx_cancelmark_true : fx_cancelmark (cf_fix cf) = true.
+Proof. rewrite Hfix. reflexivity. Qed.
 
 Lemma opaque_not_query s L o q : Own s L -> cell_of s o = Some (CQuery q) -> ~ In o L.
 Proof. intros [_ H] Hq Hin. destruct (H _ Hin) as [Hc _]. rewrite Hq in Hc. discriminate. Qed.
@@ -473,12 +475,34 @@ Proof.
   intros [] s2 [I2 [F2 Hsh]]. split; auto. split; auto. exact (frame_trans _ _ _ _ _ F1 F2).
 Qed.
 
+(* ares_cancel marks the queries it has taken: only the flag changes *)
+Lemma mark_cancelled_ok l : forall s, Inv s -> incl l (linked s) ->
+  safe (mark_cancelled l) s (fun _ s' => Inv s' /\ Frame s s' [] /\ st_lists s' = st_lists s /\ st_tape s' = st_tape s
+                                       /\ st_trace s' = st_trace s /\ st_scripts s' = st_scripts s /\ st_conns s' = st_conns s).
+Proof.
+  induction l as [|qo r IHr]; intros s I Hl; simpl.
+  - apply safe_ret. split; auto. split; [apply (frame_refl _ _ I)|auto 10].
+  - assert (Hq0 : In qo (linked s)) by (apply Hl; left; auto).
+    destruct (inv_query _ _ I _ Hq0) as [q Hq].
+    apply safe_bind. apply safe_bind. eapply safe_get_query; [exact (inv_heap _ _ I)|exact Hq|].
+    eapply safe_store; [exact (inv_heap _ _ I)|exact Hq|].
+    destruct (store_query_misc_ok None s qo q (set_q_cancelled true q) I Hq eq_refl eq_refl eq_refl) as [I1 [F1 [_ [Ell1 _]]]].
+    set (s1 := store_st qo (CQuery (set_q_cancelled true q)) s) in *.
+    assert (F1' : Frame s s1 []).
+    { eapply frame_shrink; [exact F1|]. intros y c [<-|[]] _. left. exact Hq0. }
+    eapply safe_mono; [apply (IHr s1 I1)|].
+    + intros y Hy. rewrite Ell1. apply Hl. right. exact Hy.
+    + intros [] s2 [I2 [F2 [E1 [E2 [E3 [E4 E5]]]]]]. split; auto. split; [exact (frame_trans _ _ _ _ _ F1' F2)|].
+      rewrite E1, E2, E3, E4, E5. repeat split; reflexivity.
+Qed.
+
 Lemma cancel_unfold f :
   cancel cf (S f) =
   (let! s := get in
    (match st_lists s with
     | (_ :: _) as l :: rest =>
         modify (set_lists ([] :: l :: rest)) ;;
+        (if fx_cancelmark (cf_fix cf) then mark_cancelled l else ret tt) ;;
         (if fx_unlink (cf_fix cf) then cancel_loop_fixed cf f f else cancel_loop_pinned cf f l) ;;
         modify (fun s => set_lists (match st_lists s with a :: _ :: r => a :: r | x => x end) s)
     | _ => ret tt end) ;;
@@ -497,9 +521,12 @@ Proof.
   - apply safe_bind. apply safe_bind. apply safe_modify.
     destruct (lists_same_linked None s ([] :: (q0 :: l0) :: rest)) as [I1 [F1 _]]; auto.
     { unfold linked. rewrite El. reflexivity. }
-    rewrite fx_unlink_true.
-    apply safe_bind. eapply safe_mono; [apply (sp_cancel_loop _ IH); exact I1|].
-    intros [] s2 [I2 [F2 Hsh]].
+    rewrite fx_unlink_true, fx_cancelmark_true.
+    apply safe_bind. eapply safe_mono; [apply (mark_cancelled_ok (q0 :: l0) _ I1)|].
+    { intros y Hy. unfold linked. simpl. destruct Hy as [->|Hy]; [left; auto|right; apply in_or_app; left; exact Hy]. }
+    intros [] sm [Im [Fm _]].
+    apply safe_bind. eapply safe_mono; [apply (sp_cancel_loop _ IH); exact Im|].
+    intros [] s2 [I2 [F2' Hsh]]. pose proof (frame_trans _ _ _ _ _ Fm F2') as F2.
     apply safe_modify.
     set (ls2 := match st_lists s2 with a :: _ :: r => a :: r | x => x end).
     destruct (lists_same_linked None s2 ls2) as [I3 [F3 _]]; auto.
@@ -699,7 +726,7 @@ Lemma send_nolock_unfold f k probe qd :
        else
          (if cf_dns0x20 cf then (let! e := peek in match e with Some (TN _) => let! _ := pop in ret tt | _ => ret tt end) else ret tt) ;;
          let! qo := alloc (CQuery {| q_qid := qid; q_cb := k; q_conn := None; q_try := 0; q_noretry := probe;
-                                     q_tcp := false; q_err := ARES_SUCCESS |}) in
+                                     q_tcp := false; q_err := ARES_SUCCESS; q_cancelled := false |}) in
          link_all qo ;;
          modify (fun s => set_byqid ((qid, qo) :: st_byqid s) s) ;;
          (if fx_qidearly (cf_fix cf) then write_qid qd qid else ret tt) ;;
@@ -751,7 +778,7 @@ Proof.
                                      match e0 with Some (TN _) => let! _ := pop in ret tt | _ => ret tt end
                                 else ret tt);;
                                (let! qo := alloc (CQuery {| q_qid := qid; q_cb := k; q_conn := None; q_try := 0;
-                                                           q_noretry := pr; q_tcp := false; q_err := ARES_SUCCESS |}) in
+                                                           q_noretry := pr; q_tcp := false; q_err := ARES_SUCCESS; q_cancelled := false |}) in
                                 link_all qo;;
                                 modify (fun s0 => set_byqid ((qid, qo) :: st_byqid s0) s0);;
                                 write_qid qd qid;;
@@ -778,7 +805,7 @@ Proof.
       + (* dns0x20 *)
         assert (D : forall s4, core_eq s s4 -> st_scripts s4 = st_scripts s -> lookup qid (st_byqid s4) = None ->
                   safe (let! qo := alloc (CQuery {| q_qid := qid; q_cb := k; q_conn := None; q_try := 0;
-                                                    q_noretry := pr; q_tcp := false; q_err := ARES_SUCCESS |}) in
+                                                    q_noretry := pr; q_tcp := false; q_err := ARES_SUCCESS; q_cancelled := false |}) in
                         link_all qo;;
                         modify (fun s0 => set_byqid ((qid, qo) :: st_byqid s0) s0);;
                         write_qid qd qid;;
@@ -788,7 +815,7 @@ Proof.
           assert (I4 : Inv s4) by (apply (inv_core _ _ _ E4); auto).
           assert (O4 : Own s4 (cobjs k)) by (apply (own_core _ _ _ E4); auto).
           assert (Hg4 : GivenOk s4 (kbot k)) by (apply (given_core _ _ _ E4); auto).
-          set (q0 := {| q_qid := qid; q_cb := k; q_conn := None; q_try := 0; q_noretry := pr; q_tcp := false; q_err := ARES_SUCCESS |}).
+          set (q0 := {| q_qid := qid; q_cb := k; q_conn := None; q_try := 0; q_noretry := pr; q_tcp := false; q_err := ARES_SUCCESS; q_cancelled := false |}).
           destruct (new_query_ok s4 k qid q0 I4 O4 Hg4 Lk4 eq_refl eq_refl eq_refl) as [I5 [F5 [Hl5 [Hq5 [Hsame5 _]]]]].
           apply safe_bind. apply safe_alloc.
           apply safe_bind. eapply safe_of_run; [apply link_all_run|].
@@ -1142,9 +1169,10 @@ Proof.
     pose proof (hown_core _ _ _ _ E2 HO1) as HO2. pose proof HO2 as [Hc2 _].
     remember (h_nomem h1 || zeqb (r_status r) ARES_ENOMEM || zeqb ais ARES_ENOMEM) as nm eqn:Enm.
     apply safe_bind. eapply safe_get_host; [exact (inv_heap _ _ I2)|exact Hc2|]. rewrite <- Enm.
+    match goal with |- context [h_set_ai nodes v4 nm ?x h1] => remember x as nd eqn:End; clear End end.
     apply safe_bind. eapply safe_store; [exact (inv_heap _ _ I2)|exact Hc2|].
-    destruct (hown_store s2 o h1 (h_set_ai nodes v4 nm h1) I2 HO2 eq_refl Hz1) as [I3 [F3 HO3]].
-    set (h3 := h_set_ai nodes v4 nm h1) in *. set (s3 := store_st o (CHost h3) s2) in *.
+    destruct (hown_store s2 o h1 (h_set_ai nodes v4 nm nd h1) I2 HO2 eq_refl Hz1) as [I3 [F3 HO3]].
+    set (h3 := h_set_ai nodes v4 nm nd h1) in *. set (s3 := store_st o (CHost h3) s2) in *.
     assert (Ecb3 : h_cb h3 = h_cb h) by reflexivity.
     simpl negb. rewrite andb_false_r. apply safe_bind. apply safe_ret.
     (* whatever comes next ends with the host_query released or waiting again *)
@@ -1191,11 +1219,12 @@ Proof.
     destruct (shared_host _ _ _ Hs2) as [Hc2 _].
     remember (h_nomem h1 || zeqb (r_status r) ARES_ENOMEM || zeqb ais ARES_ENOMEM) as nm eqn:Enm.
     apply safe_bind. eapply safe_get_host; [exact (inv_heap _ _ I2)|exact Hc2|]. rewrite <- Enm.
+    match goal with |- context [h_set_ai nodes v4 nm ?x h1] => remember x as nd eqn:End; clear End end.
     apply safe_bind. eapply safe_store; [exact (inv_heap _ _ I2)|exact Hc2|].
-    destruct (store_host_shared_ok None s2 o h1 (h_set_ai nodes v4 nm h1) (dg None) I2 Hs2 eq_refl Hp1) as [I3 [F3 _]].
+    destruct (store_host_shared_ok None s2 o h1 (h_set_ai nodes v4 nm nd h1) (dg None) I2 Hs2 eq_refl Hp1) as [I3 [F3 _]].
     { simpl. lia. } { intros; reflexivity. }
     { simpl. pose proof (hi_cnt _ (inv_hosts _ _ I2) _ _ Hs2). lia. }
-    set (s3 := store_st o (CHost (h_set_ai nodes v4 nm h1)) s2) in *.
+    set (s3 := store_st o (CHost (h_set_ai nodes v4 nm nd h1)) s2) in *.
     assert (F13 : FrameG (dg (Some o)) s s3 []).
     { exact (frame_trans_gl _ _ _ _ _ _ F1 (frame_core_l _ _ _ _ E2 F3)). }
     simpl negb.
